@@ -78,6 +78,13 @@ def enumerate_cases(tier, scope):
                     if 'resume' not in [e[0] for e in sched]:
                         continue
                     yield {'program': cat[name], 'schedule': [['tick', 1]] + sched, 'tag': f'token:{name}'}
+        # ... and the process class has a WAITING state class of its own (installed through get_state_classes())
+        for name in ('wait1', 'waitwait'):
+            for kk in (1, 2):
+                for sched in gen.schedules(ALPHABET, kk, 1):
+                    if 'resume' not in [e[0] for e in sched]:
+                        continue
+                    yield {'program': dict(cat[name], sampling_waiting=True), 'schedule': [['tick', 1]] + sched, 'tag': f'ownstate:{name}'}
     elif scope == 'hookwithdrawn':
         # a hook or listener asks for a kill (pause) from inside a transition and drops the request at once: the wait that
         # was just entered is as good as any other
